@@ -137,9 +137,35 @@ class Scenario:
                 for nd in w.nodes[1:-1]:
                     nd.overlay.candidates.clear()
                     nd.overlay.circuits_needed[1] = 1
+            early = {"held": [], "created": False, "done": not (c.get("early") and hops >= 2)}
+            if not early["done"]:
+                # the originator uses the half-built circuit (legal for a remote originator): its extend is held back until
+                # a datagram has exited through the first hop, which then turns from exit into relay
+                inner_hook = w.net.on_send
+
+                def early_hook(fl):
+                    cell = parse_cell(fl.data, w.prefix)
+                    if cell is not None and not early["done"]:
+                        if cell["plaintext"] and cell["message"][:1] == b"\x03" and fl.dst == origin.address:
+                            early["created"] = True
+                        elif not cell["plaintext"] and fl.origin is origin.raw_endpoint and early["created"] and \
+                                not early["held"]:
+                            early["held"].append(fl)
+                            return []
+                    return inner_hook(fl)
+                w.net.on_send = early_hook
             x = origin.overlay.create_circuit(hops)
             if x is None:
                 self.fail("U", "build", "circuit X could not be started")
+            if not early["done"]:
+                await w.net.settle()
+                if early["held"] and x.hops:
+                    origin.overlay.send_data(x.hop.address, x.circuit_id, ("5.5.5.5", 5555), ("0.0.0.0", 0), b"d5:earlye")
+                    await asyncio.sleep(0.2)
+                early["done"] = True
+                w.net.on_send = inner_hook
+                for fl in early["held"]:
+                    w.net.inject(fl.src, fl.dst, fl.data, note="extend released")
             await asyncio.sleep(0.5 if c["phase"] != "building" else 0.0)
             if c["phase"] == "transfer" and x.state == "READY":
                 for i in range(3):
@@ -256,9 +282,10 @@ class Scenario:
             self.info["nontrivial"] = bool(control_hit) or td == "vanish" or race is not None or bool(chat)
             self.info["cls"] = "%dhop/%s/%s/%dfaults%s%s" % (hops, c["phase"], td, len(c["faults"]),
                                                             "/demand" if c.get("demand") else "",
-                                                            "/race" if race is not None else "/chatter" if c.get("chatter") else "")
+                                                            "/race" if race is not None else "/chatter" if c.get("chatter")
+                                                            else "/early" if c.get("early") else "")
             self.info["desc"] = (hops, c["phase"], td, tuple(map(tuple, c["faults"])), bool(c.get("demand")),
-                                 tuple(race) if race is not None else None, bool(c.get("chatter")))
+                                 tuple(race) if race is not None else None, bool(c.get("chatter")), bool(c.get("early")))
         finally:
             w.net.on_send = None
             await w.close()
@@ -383,6 +410,8 @@ def _enum_shard(ctx: Ctx, shard: int, nshards: int, which: int, pairs: bool) -> 
         for n in range(24):
             for kind in KINDS:
                 jobs.append({**s, "seed": 5, "faults": [[n, kind]]})
+        if s["hops"] >= 2 and s["phase"] in ("ready", "transfer"):
+            jobs.append({**s, "seed": 5, "faults": [], "early": 1})
         if s["phase"] == "transfer":
             jobs.append({**s, "seed": 5, "faults": [], "chatter": 1})
             for n in range(0, 24, 4):
@@ -414,7 +443,7 @@ def _strategy():
     race = st.none() | st.tuples(st.integers(0, 8), st.integers(0, 8), st.integers(0, 12)).map(list)
     scen = st.tuples(sc, st.integers(0, 1000), faults, st.booleans(), race).map(
         lambda t: {**t[0], "seed": t[1], "faults": t[2], "demand": t[3], **({"race": t[4]} if t[4] is not None else {}),
-                   **({"chatter": 1} if t[1] % 3 == 0 else {})})
+                   **({"chatter": 1} if t[1] % 3 == 0 else {}), **({"early": 1} if t[1] % 4 == 1 else {})})
     join = st.fixed_dictionaries({"sub": st.just("join_limit"), "limit": st.integers(1, 4), "seed": st.integers(0, 99)})
     early = st.fixed_dictionaries({"sub": st.just("relay_early"), "limit": st.integers(0, 8), "burst": st.integers(1, 20),
                                    "seed": st.integers(0, 99)})
